@@ -5,7 +5,7 @@ cd "$(dirname "$0")/.." || exit 2
 for D in seeded/*/; do
   ID=$(basename "$D"); PROP=$(python3 -c "import json;print(json.load(open('$D/meta.json'))['property'])")
   if grep -q '"superseded_by_fix"' "$D/meta.json"; then echo "$ID: superseded by a fix commit (see meta.json), skipped"; continue; fi
-  git -C /repo apply "$D/patch.diff" || { echo "$ID: patch does not apply"; continue; }
+  git -C /repo apply "$PWD/$D/patch.diff" || { echo "$ID: patch does not apply"; continue; }
   VERIF_EVIDENCE_DIR=/tmp/ev-rerun ./run.sh "$PROP" quick > /tmp/rerun-$ID.log 2>&1; RC=$?
   git -C /repo checkout -- .
   VLINE=$(grep -m1 '^VIOLATION' /tmp/rerun-$ID.log); CLAUSE=$(grep -m1 'clause=' /tmp/rerun-$ID.log | sed 's/^ *//')
